@@ -35,10 +35,10 @@ Pads          == {"none", "lead", "trail", "dblsp", "tab"}
 L(key, prio, name, val) == [key |-> key, prio |-> prio, name |-> name, val |-> val, term |-> "LF", pad |-> "none"]
 
 \* base pointers: extension priority lists
-ExtSets == { <<>>, <<0>>, <<1, 5>>, <<0, 9>> }
+ExtSets == { <<>>, <<0>>, <<1, 5>>, <<0, 9>> }      \* priorities; the second extension's name has a hyphen and a dot
 Canonical(sizeC, exts) ==
    <<L("version", -1, "", "latest")>>
-   \o [i \in 1..Len(exts) |-> L("ext", exts[i], IF i = 1 THEN "foo" ELSE "bar", "ok2")]
+   \o [i \in 1..Len(exts) |-> L("ext", exts[i], IF i = 1 THEN "foo" ELSE "my-ext.v2", "ok2")]   \* keys may use [a-z] [0-9] . -
    \o <<L("oid", -1, "", "ok1"), L("size", -1, "", sizeC)>>
 
 \* start from a canonical pointer, or from the empty document (docs/spec.md: "an empty file is the
